@@ -95,3 +95,15 @@ Fixpoint diffs (t : table) (k : nat) (ps : list probe) (seen : list ans) : list 
 Definition check_case (c : case) : list nat :=
   let '(t, ps, seen) := c in
   if wf t then diffs t 0 ps seen else [99%nat].
+
+(* ---- declarations: a list of interface declarations in source order, and whether the interpreter
+   accepted the script.  1 = model (declare_ifaces from the empty table) vs implementation;
+   2 = oracle vs implementation: a list of declarations is acceptable exactly when the graph of ALL of
+   them is acyclic *)
+Definition dcase := (list (string * ifc) * bool)%type.
+Definition check_dcase (c : dcase) : list nat :=
+  let '(ds, accepted) := c in
+  let m := match declare_ifaces {| classes := []; ifaces := [] |} ds with Some _ => true | None => false end in
+  let all := {| classes := []; ifaces := ds |} in
+  let o := forallb (fun e => iface_ends (iface_fuel all) all (fst e)) ds in
+  (if Bool.eqb m accepted then [] else [1%nat]) ++ (if Bool.eqb o accepted then [] else [2%nat]).
